@@ -1,4 +1,5 @@
 import MM.Lemmas.C31
+import MM.Gen.LockC31
 
 /-!
   C31 — reconnection respects pause and bounded exponential backoff.
@@ -161,6 +162,33 @@ theorem C31_run (c : Cfg) (ls : List Label) :
           obtain ⟨_, hwp⟩ := C31_paused_no_attempt c r l n d wp hoe
           exact ⟨k, by rw [hn, hd, hwp]⟩
     · exact ih r' hr' e he
+
+
+/-! ### Atomic-step tie (facts regenerated from internal/peer/reconnect.go by tools/lockshape.go)
+
+  The LTS's steps are the regions under `Reconnector.mu`: every access to `paused`, `states`,
+  `closed` in the modelled methods happens under the lock; Schedule / Pause / Resume / ResetAll /
+  clearState / Stop are one region each; attemptReconnect is exactly TWO regions (`fire` and
+  `ret`) with the callback invoked between them without the lock, and its first region reads
+  `paused`. -/
+
+namespace LockTie
+open MM.Gen.LockC31
+
+def acq (m : String) : Option Nat := (acquisitions.find? (fun a => a.1 == m)).map (·.2)
+def allW : Bool := accesses.all (fun a => a.2.2.2 == "W")
+
+theorem C31_lock_regions :
+    allW = true ∧
+    acq "Reconnector.attemptReconnect" = some 2 ∧
+    accesses.contains ("Reconnector.attemptReconnect", "paused", false, "W") = true ∧
+    calls.contains ("Reconnector.attemptReconnect", "callback", "none") = true ∧
+    acq "Reconnector.Schedule" = some 1 ∧ acq "Reconnector.Pause" = some 1 ∧ acq "Reconnector.Resume" = some 1 ∧
+    acq "Reconnector.ResetAll" = some 1 ∧ acq "Reconnector.clearState" = some 1 ∧ acq "Reconnector.Stop" = some 1 ∧
+    accesses.contains ("Reconnector.Pause", "paused", true, "W") = true ∧
+    accesses.contains ("Reconnector.Schedule", "paused", false, "W") = true := by decide
+
+end LockTie
 
 /-! ### Non-vacuity -/
 
